@@ -104,6 +104,8 @@ def m_set(I, args, kwargs, node):
     x = args[0]
     if isinstance(x, (list, tuple, set)) and not any(isinstance(e, Sym) for e in x):
         return set(x)
+    if isinstance(x, SOpaque) and x.tag == "columns":
+        return SOpaque(ufun("U!set", U(), U())(x.t), "any")      # the set of column names, as an opaque value
     if isinstance(x, SOpaque):          # a Series / array of row values
         t = x.t
         n = series_len(t)
